@@ -6,21 +6,25 @@ From V.C02 Require Import Model Proofs.
 Import ListNotations.
 Open Scope N_scope.
 
-(* Reader, any wire (any tampering, truncation, garbage): for every read-ahead factor >= 1, every
-   chunking / Pending pattern of the carrier and every sequence of caller buffer sizes, the
-   reader never panics (all slice indices in bounds), never reports an internal-state error, and
-   the chunks it delivers are consecutive pieces of the writer's byte stream starting at 0 —
-   no loss, duplication, reordering or foreign bytes; a chunk fits the buffer and is non-empty
-   for a non-empty buffer; the run ends at the first error, which is EOF or InvalidData. *)
+(* Reader, any wire (any tampering, truncation, garbage) and any carrier behaviour (chunking,
+   Pending, zero-length reads, I/O errors, EOF at any point — mid-header, mid-frame), the socket
+   being polled on after errors and EOF: for every read-ahead factor >= 1 and every sequence of
+   caller buffer sizes (including empty buffers) the reader never panics (all slice indices in
+   bounds, no `expect` on a missing value), never reports an internal-state error, and the chunks it
+   delivers are consecutive pieces of the writer's byte stream starting at 0 — no loss,
+   duplication, reordering or foreign bytes; a chunk fits the buffer and is non-empty for a
+   non-empty buffer; every error is the carrier's (EOF / I/O error) or InvalidData. *)
 Theorem C02_read_exact :
   forall e, wf_env e -> forall bufs sc,
   pieces_ok 0 bufs (run_reader e bufs sc (reader_init (e_cfg e))).
 Proof. exact read_exact. Qed.
 Print Assumptions C02_read_exact.
 
-(* The same run with the full per-call judgement: every EOF leaves the reader in ReadData with
-   the invariant intact (buffer window, cursor on a frame boundary, index bounds), and
-   InvalidData is only ever reported at an item that is not the acceptable next frame. *)
+(* The same run with the full per-call judgement: after every call the invariant holds (buffer
+   window, cursor on a frame boundary, index bounds); a carrier error or EOF leaves the reader in
+   ReadData with nothing lost (a later poll resumes exactly where the stream stopped); InvalidData
+   is only ever reported at an item that is not the acceptable next frame and leaves the reader in
+   the Failed state. *)
 Theorem C02_read_invariant :
   forall e, wf_env e -> forall bufs sc D r, Inv e D r -> run_ok e D bufs (run_reader e bufs sc r).
 Proof. exact run_ok_holds. Qed.
@@ -33,44 +37,70 @@ Theorem C02_poll_read_step :
 Proof. exact poll_inv. Qed.
 Print Assumptions C02_poll_read_step.
 
-(* Untampered wire of frames with 1..MAX_FRAME_LEN plaintext bytes: no InvalidData ever; and when
-   the carrier reports EOF after the whole wire was pulled, every byte has been delivered. *)
+(* Fail-stop: from any state whatsoever, once a poll has reported InvalidData every later poll
+   reports InvalidData — nothing is ever delivered after a protocol failure, and re-polling a
+   failed socket is answered without touching the buffers. *)
+Theorem C02_fail_stop :
+  forall e bufs sc r,
+  fail_stop (match r_state r with Failed => true | _ => false end) (run_reader e bufs sc r).
+Proof. exact reader_fail_stop. Qed.
+Print Assumptions C02_fail_stop.
+
+Theorem C02_failed_repoll :
+  forall e b sc r, r_state r = Failed -> poll_read e b sc r = (RErr E_INVALID, set_lp r false, sc).
+Proof. exact poll_failed. Qed.
+Print Assumptions C02_failed_repoll.
+
+(* Untampered wire of frames with 1..MAX_FRAME_LEN plaintext bytes, any carrier behaviour:
+   InvalidData never; never more than was written; whenever the carrier reports EOF after the
+   whole wire was pulled, every byte has been delivered. *)
 Theorem C02_read_honest :
   forall c plains, 1 <= c_factor c -> c_mfl c + TAG <= SNOW_MAX -> plains_ok c plains ->
   forall bufs sc,
   let tr := run_reader (honest_env c plains) bufs sc (reader_init c) in
-  pieces_ok 0 bufs tr /\
-  (forall x r', In (x, r') tr -> x <> RErr E_INVALID) /\
-  (forall r', In (RErr E_EOF, r') tr -> r_wbase r' + r_nread r' = wire_len (honest plains) ->
-              delivered tr = sum plains).
+  pieces_ok 0 bufs tr /\ honest_ok (wire_len (honest plains)) (sum plains) 0 tr.
 Proof. exact read_honest. Qed.
 Print Assumptions C02_read_honest.
 
 (* Tampering: if the j-th item on the wire is not the authentic j-th frame with a truthful header
    (modified body or header, dropped, replayed, reordered — or absent), no byte of frame j or of
-   any later frame is ever delivered, whatever follows on the wire. *)
+   any later frame is ever delivered, whatever follows on the wire and however often the socket
+   is polled. *)
 Theorem C02_read_tamper :
   forall e j, wf_env e -> not_auth e j -> forall bufs sc,
   delivered (run_reader e bufs sc (reader_init (e_cfg e))) <= pstart (e_plains e) j.
 Proof. exact read_tamper. Qed.
 Print Assumptions C02_read_tamper.
 
-(* Writer: for any sequence of poll_write / poll_flush calls and any acceptance / Pending script of
-   the carrier, no call fails or panics, every frame carries 1..MAX_FRAME_LEN plaintext bytes, the
-   frames' plaintext adds up to exactly the bytes the write calls reported as accepted, and the
-   bytes handed to the carrier plus the bytes still buffered are exactly the frames' wire bytes. *)
+(* No lost wake-up on the read side: poll_read = Pending only if the last carrier call of that poll
+   returned Pending (the carrier then holds the waker). *)
+Theorem C02_read_pending_has_waker :
+  forall e b sc r r' sc', poll_read e b sc r = (RPending, r', sc') -> r_lp r' = true.
+Proof. exact read_pending_has_waker. Qed.
+Print Assumptions C02_read_pending_has_waker.
+
+(* Writer: for any sequence of poll_write / vectored poll_write / poll_flush / poll_close calls
+   and any behaviour of the carrier (partial acceptance, Pending, Ok(0), I/O errors, closed), the
+   socket being used on after errors: no call panics or fails with InvalidData, every frame carries
+   1..MAX_FRAME_LEN plaintext bytes, the frames' plaintext adds up to exactly the bytes the write
+   calls reported as accepted (an error or Pending accepts nothing), the bytes handed to the
+   carrier plus the bytes still buffered are exactly the frames' wire bytes, Pending is only
+   returned after the carrier returned Pending, and nothing reaches a closed carrier. *)
 Theorem C02_write_frames :
-  forall c, 1 <= c_mfl c -> c_mfl c + TAG <= SNOW_MAX ->
+  forall c, 1 <= c_mfl c -> c_mfl c + TAG <= SNOW_MAX -> 1 <= c_wbuf c ->
   forall ops sc w tr wf ok, WInv c w -> run_writer c ops sc w = (tr, wf, ok) ->
   ok = true /\ WInv c wf /\ sum (w_frames wf) = sum (w_frames w) + accepted ops tr /\
-  Forall (fun xw => w_is_final (fst xw) = false) tr.
+  wrun_ok ops tr /\ (w_cclosed w = true -> w_cclosed wf = true /\ w_sent wf = w_sent w).
 Proof. exact run_writer_ok. Qed.
 Print Assumptions C02_write_frames.
 
-(* a single poll_write: accepts at most len bytes and frames exactly what it accepts *)
+(* a single poll_write: accepts at most len bytes and frames exactly what it accepts; Pending
+   implies a registered waker; an error accepts nothing *)
 Theorem C02_poll_write_step :
-  forall c len sc w x w' sc', 1 <= c_mfl c -> c_mfl c + TAG <= SNOW_MAX ->
-  WInv c w -> poll_write c len sc w = (x, w', sc') -> wres_ok c len w x w'.
+  forall c len sc w x w' sc',
+  1 <= c_mfl c -> c_mfl c + TAG <= SNOW_MAX -> 1 <= c_wbuf c ->
+  WInv c w -> poll_write c len sc w = (x, w', sc') ->
+  wres_ok c len w x w' /\ w_cclosed w' = w_cclosed w.
 Proof. exact poll_write_ok. Qed.
 Print Assumptions C02_poll_write_step.
 
@@ -82,27 +112,60 @@ Theorem C02_write_progress :
 Proof. exact poll_write_progress. Qed.
 Print Assumptions C02_write_progress.
 
-(* poll_flush = Ready: nothing is left in the encrypt buffer, every frame is with the carrier *)
+(* an empty write never blocks and accepts nothing *)
+Theorem C02_write_empty :
+  forall c sc w x w' sc', poll_write c 0 sc w = (x, w', sc') ->
+  x = WReady 0 \/ (exists e, x = WErr e) \/ x = WPanic.
+Proof. exact poll_write_empty. Qed.
+Print Assumptions C02_write_empty.
+
+(* poll_flush = Ready: nothing is left in the encrypt buffer, every frame is with the carrier;
+   Pending / error: frames unchanged, Pending has a waker *)
 Theorem C02_flush_complete :
   forall c sc w x w' sc', WInv c w -> poll_flush c sc w = (x, w', sc') ->
-  WInv c w' /\ w_frames w' = w_frames w /\
-  ((x = WReady 0 /\ w_state w' = WIdle /\ w_sent w' = frames_wire (w_frames w')) \/ x = WPending).
+  wres_ok c 0 w x w' /\ w_frames w' = w_frames w /\ w_cclosed w' = w_cclosed w /\
+  (forall n, x = WReady n -> n = 0 /\ w_state w' = WIdle /\ w_sent w' = frames_wire (w_frames w')).
 Proof. exact poll_flush_ok. Qed.
 Print Assumptions C02_flush_complete.
 
+(* poll_close = Ready: everything accepted so far was encrypted, completely handed to the carrier
+   and only then the carrier was closed; for every continuation of the run nothing more reaches
+   the carrier (bytes accepted after a close are never sent; calls that try to send them fail) *)
+Theorem C02_close_flushes :
+  forall c, 1 <= c_mfl c -> c_mfl c + TAG <= SNOW_MAX -> 1 <= c_wbuf c ->
+  forall sc w x w' sc', WInv c w -> poll_close c sc w = (x, w', sc') ->
+  forall n, x = WReady n ->
+  w_state w' = WIdle /\ w_frames w' = w_frames w /\ w_sent w' = frames_wire (w_frames w) /\
+  w_cclosed w' = true /\
+  forall ops sc2 tr wf ok, run_writer c ops sc2 w' = (tr, wf, ok) ->
+    w_sent wf = frames_wire (w_frames w) /\ w_cclosed wf = true.
+Proof. exact close_flushes. Qed.
+Print Assumptions C02_close_flushes.
+
+(* poll_close in general: the carrier is closed only by a call that returns Ready, and only after
+   a complete flush *)
+Theorem C02_close_step :
+  forall c sc w x w' sc', WInv c w -> poll_close c sc w = (x, w', sc') ->
+  wres_ok c 0 w x w' /\ w_frames w' = w_frames w /\
+  (w_cclosed w = true -> w_cclosed w' = true) /\
+  (forall n, x = WReady n ->
+     n = 0 /\ w_state w' = WIdle /\ w_sent w' = frames_wire (w_frames w') /\ w_cclosed w' = true) /\
+  (w_cclosed w' = true -> w_cclosed w = false -> exists n, x = WReady n).
+Proof. exact poll_close_ok. Qed.
+Print Assumptions C02_close_step.
+
 (* writer -> wire -> reader: whatever was accepted by the writer comes out of the reader in order,
-   for all write sizes, carrier scripts on both sides, reader buffer sizes and configurations *)
+   for all write sizes, carrier behaviours on both sides, reader buffer sizes and configurations *)
 Theorem C02_end_to_end :
-  forall c, 1 <= c_factor c -> 1 <= c_mfl c -> c_mfl c + TAG <= SNOW_MAX ->
+  forall c, 1 <= c_factor c -> 1 <= c_mfl c -> c_mfl c + TAG <= SNOW_MAX -> 1 <= c_wbuf c ->
   forall ops wsc tr w ok, run_writer c ops wsc writer_init = (tr, w, ok) ->
   forall bufs rsc,
   let plains := w_frames w in
   let rt := run_reader (honest_env c plains) bufs rsc (reader_init c) in
   ok = true /\ sum plains = accepted ops tr /\
+  (w_state w = WIdle -> sent_frames plains (w_sent w) = plains) /\
   pieces_ok 0 bufs rt /\
-  (forall x r', In (x, r') rt -> x <> RErr E_INVALID) /\
-  (forall r', In (RErr E_EOF, r') rt -> r_wbase r' + r_nread r' = wire_len (honest plains) ->
-              delivered rt = accepted ops tr).
+  honest_ok (wire_len (honest plains)) (accepted ops tr) 0 rt.
 Proof. exact end_to_end. Qed.
 Print Assumptions C02_end_to_end.
 
@@ -113,21 +176,36 @@ Theorem C02_constants :
 Proof. exact consts_ok. Qed.
 Print Assumptions C02_constants.
 
-(* The defect that was repaired: with MAX_FRAME_LEN = 65520 a poll_write of one maximal chunk
-   fails with InvalidData (snow refuses 65520 + 16 > 65535). Witness: corpus/C02/w01_*.case. *)
+(* The first defect that was repaired: with MAX_FRAME_LEN = 65520 a poll_write of one maximal
+   chunk fails with InvalidData (snow refuses 65520 + 16 > 65535). Witness: corpus/C02/w01_*.case.
+   (The second one — a panic when the socket was polled again after a decryption failure — is
+   excluded by C02_read_invariant / C02_fail_stop on the repaired state machine; witness
+   corpus/C02/w03_*.case.) *)
 Theorem C02_unfixed_refuted :
   exists len sc, fst (fst (poll_write (mkCfg 5 2 65520) len sc writer_init)) = WErr E_INVALID.
 Proof. exact unfixed_refuted. Qed.
 Print Assumptions C02_unfixed_refuted.
 
-(* non-vacuity: a 3-frame transfer through a 1-byte-at-a-time carrier with a 1-byte carry-over,
-   and a body flip of frame 1 that stops the reader after frame 0 *)
+(* non-vacuity: a 3-frame transfer through a stuttering carrier (Pending, I/O error, zero-length
+   read) with a 1-byte carry-over; a body flip of frame 1 that stops the reader after frame 0 and
+   keeps it failed; a close that flushes a partially written buffer *)
 Example C02_nonvacuous :
   let c := mkCfg 1 1 V.gen.Consts.MAX_FRAME_LEN in
   let plains := [5; 70000 - 65519; 1] in
-  let tr := run_reader (honest_env c plains) [100; 100; 2; 100000; 7; 7]
-                       [3; 4; 0; 1; 1; 1; 1000000; 1000000; 1000000] (reader_init c) in
-  map fst tr = [RPending; RReady 5 0; RReady 2 5; RReady 4479 7; RReady 1 4486; RErr E_EOF] /\
+  let tr := run_reader (honest_env c plains) [100; 100; 100; 100; 2; 100000; 7; 7; 7]
+                       [3; 4; 0; SPECIAL + 6; 1; SPECIAL; 1; 1; 1000000; 1000000; 1000000] (reader_init c) in
+  map fst tr = [RPending; RErr 6; RErr E_EOF; RReady 5 0; RReady 2 5; RReady 4479 7; RReady 1 4486;
+                RErr E_EOF; RErr E_EOF] /\
   let e := env_of c plains (TFlip 1 9 255) in
-  not_auth e 1 /\ delivered (run_reader e [100; 100; 100] [1000000; 1000000] (reader_init c)) = 5.
-Proof. vm_compute. split; [reflexivity|]. split; [|reflexivity]. intros it [= <-]. reflexivity. Qed.
+  not_auth e 1 /\
+  map fst (run_reader e [100; 100; 100; 100] [1000000; 1000000] (reader_init c)) =
+    [RReady 5 0; RErr E_INVALID; RErr E_INVALID; RErr E_INVALID] /\
+  let '(tr, w, _) := run_writer c [OWrite 10; OWriteV [0; 7; 3]; OClose; OClose; OWrite 4; OFlush]
+                                [0; 5; 0; 1000; 1000] writer_init in
+  map fst tr = [WReady 10; WReady 7; WPending; WReady 0; WReady 4; WErr E_BROKENPIPE] /\
+  w_sent w = frames_wire [10; 7] /\ w_cclosed w = true.
+Proof.
+  vm_compute. split; [reflexivity|]. split; [|split; [reflexivity|]].
+  - intros it [= <-]. reflexivity.
+  - repeat split.
+Qed.
